@@ -34,4 +34,8 @@ func c19(c *Ctx) {
 	}
 	boundsFor(c, "C19", []*ssa.Function{um, ma})
 	accFreshFor(c, 4, "vlaextension.go")
+	r.Floor("VLA stream/spatial walks", vlaWalkRule(c), 8)
+	if k := vlaSizeRule(c); k == 0 {
+		r.Infof("SIBLING.vlasize: no store into requiredLen whose value depends only on the stream count and the number of layers: not decided")
+	}
 }
